@@ -1023,8 +1023,8 @@ func drawCase(t *rapid.T) caseT {
 	} else {
 		c.Other = drawObj(t, L, 6, "other")
 		c.Other.Kind = 0
-		if c.Other.Seed == c.Obj.Seed {
-			c.Other.Seed++
+		for tries := 0; tries < 200 && bytes.Equal(c.Other.bytes(), c.Obj.bytes()); tries++ {
+			c.Other.Seed += 0x9E3779B97F4A7C15 // one-byte objects do collide
 		}
 	}
 	c.Corr = drawCorr(t, c.Obj, c.otherObj(), true)
